@@ -97,7 +97,13 @@ class Builder:
                             else p)
             return fn(*args)
         if t == 'kl':
-            return rso.kldiv(self.ev(e[1]), const(e[2]), e[3])
+            v = const(e[2])
+            h = self.hooks.get('const')
+            return rso.kldiv(self.ev(e[1]), h(v) if h else v, e[3])
+        if t == 'quad':
+            v = const(e[2])
+            h = self.hooks.get('const')
+            return rso.quad(self.ev(e[1]), h(v) if h else v)
         if t == 'concat':
             return rso.concat(tuple(self.ev(x) for x in e[1:]))
         if t == 'vec':
